@@ -149,7 +149,19 @@ class System:
         key = (tuple(sorted((e.key(), s) for e, s in cons)), tuple(sorted((e.key(), s) for e, s in extra)))
         r = _CACHE.get(key)
         if r is None:
-            r = _fm_feasible([self._tighten(e, s) for e, s in (cons + extra)], self)
+            base = [self._tighten(e, s) for e, s in cons]
+            r = _fm_feasible(base + [self._tighten(e, s) for e, s in extra], self)
+            if r and extra:
+                # not refuted over the rationals: make the integrality of the individual symbols available
+                # (project the path constraints on each integer symbol, round its bounds, try again)
+                skey = key[0]
+                unit = _UNIT.get(skey)
+                if unit is None:
+                    unit = _integer_unit_bounds(base, self)
+                    if len(_UNIT) < 50000:
+                        _UNIT[skey] = unit
+                if unit:
+                    r = _fm_feasible(base + unit + [self._tighten(e, s) for e, s in extra], self)
             if len(_CACHE) < 200000:
                 _CACHE[key] = r
         return r
@@ -163,6 +175,65 @@ class System:
 
 
 _CACHE = {}
+_UNIT = {}
+
+
+def _project_bounds(cons, sysm, x, limit=3000):
+    """rational bounds (lo, hi) of symbol x implied by cons (Fourier-Motzkin projection); None = unbounded."""
+    work = [(e, s) for e, s in cons if not e.is_const]
+    syms = set()
+    for e, s in work:
+        syms |= set(e.c)
+    for y in sorted(syms - {x}, key=lambda v: sum(1 for e, s in work if v in e.c)):
+        pos = [(e, s) for e, s in work if e.c.get(y, 0) > 0]
+        neg = [(e, s) for e, s in work if e.c.get(y, 0) < 0]
+        rest = [(e, s) for e, s in work if y not in e.c]
+        new = list(rest)
+        seen = {(e.key(), s) for e, s in new}
+        for ep, sp in pos:
+            for en, sn in neg:
+                e = ep.scale(-en.c[y]) + en.scale(ep.c[y])
+                st_ = sp or sn
+                e, st_ = sysm._tighten(e, st_)
+                if e.is_const:
+                    continue
+                m = max(abs(v) for v in e.c.values())
+                e = e.scale(1 / m)
+                k_ = (e.key(), st_)
+                if k_ not in seen:
+                    seen.add(k_)
+                    new.append((e, st_))
+        if len(new) > limit:
+            return None, None
+        work = new
+    lo = hi = None
+    for e, s in work:
+        a = e.c.get(x, 0)
+        if a == 0 or len(e.c) != 1:
+            continue
+        b = -e.k / a
+        if a > 0:
+            hi = b if hi is None or b < hi else hi
+        else:
+            lo = b if lo is None or b > lo else lo
+    return lo, hi
+
+
+def _integer_unit_bounds(cons, sysm):
+    import math
+    syms = set()
+    for e, s in cons:
+        syms |= set(e.c)
+    out = []
+    for x in sorted(syms):
+        if x not in sysm.ints:
+            continue
+        lo, hi = _project_bounds(cons, sysm, x)
+        if lo is not None:
+            out.append((Lin({x: -1}, F(math.ceil(lo))), False))
+        if hi is not None:
+            out.append((Lin({x: 1}, -F(math.floor(hi))), False))
+    return out
 
 
 def _gcd(a, b):
@@ -172,9 +243,75 @@ def _gcd(a, b):
     return a
 
 
+def _propagate_bounds(cons, sysm, rounds=40):
+    """interval bound propagation with integer rounding; returns (feasible?, extra unit constraints).
+    Makes the integrality of single variables available to the elimination (d >= -0.8  ==>  d >= 0)."""
+    import math
+    lo, hi = {}, {}
+    syms = set()
+    for e, s in cons:
+        syms |= set(e.c)
+    changed = True
+    it = 0
+    while changed and it < rounds:
+        changed = False
+        it += 1
+        for e, strict in cons:
+            # sum a_i x_i + k (<|<=) 0
+            for x, a in e.c.items():
+                # bound a*x <= -k - sum_{others} min(a_i x_i)
+                rest = -e.k
+                ok = True
+                for y, b in e.c.items():
+                    if y == x:
+                        continue
+                    if b > 0:
+                        if y not in lo:
+                            ok = False
+                            break
+                        rest -= b * lo[y]
+                    else:
+                        if y not in hi:
+                            ok = False
+                            break
+                        rest -= b * hi[y]
+                if not ok:
+                    continue
+                bound = rest / a
+                isint = x in sysm.ints
+                if a > 0:
+                    nb = bound
+                    if isint:
+                        nb = F(math.floor(nb)) if not (strict and nb == math.floor(nb)) else F(math.floor(nb) - 1)
+                    if x not in hi or nb < hi[x]:
+                        hi[x] = nb
+                        changed = True
+                else:
+                    nb = bound
+                    if isint:
+                        nb = F(math.ceil(nb)) if not (strict and nb == math.ceil(nb)) else F(math.ceil(nb) + 1)
+                    if x not in lo or nb > lo[x]:
+                        lo[x] = nb
+                        changed = True
+                if x in lo and x in hi and lo[x] > hi[x]:
+                    return False, []
+    extra = []
+    for x in syms:
+        if x in sysm.ints:
+            if x in lo:
+                extra.append((Lin({x: -1}, lo[x]), False))
+            if x in hi:
+                extra.append((Lin({x: 1}, -hi[x]), False))
+    return True, extra
+
+
 def _fm_feasible(cons, sysm, limit=4000):
     """Fourier-Motzkin feasibility over the rationals with integer tightening of derived constraints."""
     cons = list(cons)
+    okb, extra = _propagate_bounds(cons, sysm)
+    if not okb:
+        return False
+    cons += extra
     # trivial constraints
     def trivially_false(e, strict):
         return e.is_const and (e.k > 0 or (strict and e.k >= 0))
@@ -278,6 +415,7 @@ class Analyzer:
         self.nfresh = 0
         self.loose = set()
         self.npaths = 0
+        self._ret_stack = []
 
     # -------------------------------------------------------------- symbols
     def fresh(self, hint, state, is_int, loose=True):
@@ -313,7 +451,8 @@ class Analyzer:
             out = []
             for v, s in self.ev(f, n['ch'][0], st):
                 if k != 'ParenExpr' and n.get('ck') == 'FloatingToIntegral' and isinstance(v, Lin) and not self.is_int_lin(v, s):
-                    v = self.trunc(v, s)
+                    out += self.trunc_fork(v, s)
+                    continue
                 out.append((v, s))
             return out
         if k == 'IntegerLiteral':
@@ -383,6 +522,9 @@ class Analyzer:
     def trunc(self, v, st):
         return UNK
 
+    def trunc_fork(self, v, st):
+        return [(self.trunc(v, st), st)]
+
     def binop(self, f, n, st):
         op = n['op']
         if op == ',':
@@ -394,7 +536,13 @@ class Analyzer:
             return [(Lin.const(1 if t else 0), s) for t, s in self.cond_node(f, n, st)]
         if op == '=':
             out = []
+            lhs_sub = f.nodes[f.strip(n['ch'][0])]['k'] == 'ArraySubscriptExpr'
             for v, s in self.ev(f, n['ch'][1], st):
+                if lhs_sub:
+                    # a store through a subscript: evaluate the subscript (its index obligation and side effects)
+                    for _, s2 in self.ev(f, f.strip(n['ch'][0]), s):
+                        out.append((v, s2))
+                    continue
                 self.assign(f, n['ch'][0], v, s)
                 out.append((v, s))
             return out
@@ -596,9 +744,9 @@ class Analyzer:
             for st in states:
                 if n.get('val', -1) is not None and n.get('val', -1) >= 0:
                     for v, s in self.ev(f, n['val'], st):
-                        self.finished(f, s, 'return')
+                        self.finished(f, s, 'return', v)
                 else:
-                    self.finished(f, st, 'return')
+                    self.finished(f, st, 'return', None)
             return []
         if k == 'CXXTryStmt':
             return self.ex(f, n['try'], states)
@@ -607,6 +755,8 @@ class Analyzer:
         if k in ('ForStmt', 'WhileStmt', 'DoStmt', 'CXXForRangeStmt'):
             return self.loop(f, nid, n, states)
         if k == 'CXXThrowExpr':
+            return []
+        if k in ('ExprWithCleanups', 'ParenExpr') and n['ch'] and f.nodes[f.strip(nid)]['k'] == 'CXXThrowExpr':
             return []
         # expression statement
         out = []
@@ -618,8 +768,36 @@ class Analyzer:
                 pass
         return out
 
-    def finished(self, f, st, how):
+    def finished(self, f, st, how, val=None):
         self.npaths += 1
+        if self._ret_stack:
+            self._ret_stack[-1].append((val if val is not None else UNK, st))
+
+    def inline_call(self, callee, argvals, st):
+        """run callee with the given argument values on state st; returns [(return value, state)] for the paths that
+        return normally (throwing paths end).  The callee's locals live in a separate environment."""
+        sub = st.copy()
+        saved_env = sub.env
+        sub.env = {k: v for k, v in saved_env.items() if isinstance(k, str) and k.startswith('this.')}
+        for p, v in zip(callee.params, argvals):
+            sub.env[p['d']] = v
+        self._ret_stack.append([])
+        try:
+            rest = self.ex(callee, callee.d['body'], [sub])
+            outs = self._ret_stack[-1]
+        finally:
+            self._ret_stack.pop()
+        for s in rest:                 # fell off the end (void function)
+            outs.append((UNK, s))
+        res = []
+        for v, s in outs:
+            env = dict(saved_env)
+            for k, x in s.env.items():
+                if isinstance(k, str) and k.startswith('this.'):
+                    env[k] = x
+            s.env = env
+            res.append((v, s))
+        return res
 
     def assigned_in(self, f, root):
         keys = set()
@@ -635,6 +813,45 @@ class Analyzer:
                 elif tgt['k'] == 'MemberExpr' and tgt.get('thisbase'):
                     keys.add('this.' + tgt['m'])
         return keys
+
+    def _shrinking(self, f, body, key):
+        """every assignment of variable key inside body is `v /= C` (C a positive constant)."""
+        ok = False
+        for j in f.walk(body):
+            jn = f.nodes[j]
+            if (jn['k'] in ('BinaryOperator', 'CompoundAssignOperator') and jn.get('op') in ASSIGN_OPS) or \
+                    (jn['k'] == 'UnaryOperator' and jn.get('op') in ('++', '--')):
+                tgt = f.nodes[f.strip(jn['ch'][0])]
+                if tgt['k'] == 'DeclRefExpr' and tgt.get('d') == key:
+                    if jn['k'] == 'CompoundAssignOperator' and jn.get('op') == '/=' and 'cv' in f.nodes[f.strip(jn['ch'][1])] \
+                            and int(f.nodes[f.strip(jn['ch'][1])]['cv']) > 0:
+                        ok = True
+                    else:
+                        return False
+        return ok
+
+    def havoc_loop_vars(self, f, body, assigned, entry, st):
+        """variables assigned in a loop body take an arbitrary later-iteration value: a fresh symbol, constrained by
+        the shrink invariant where it applies (0 <= v' <= v_entry for v >= 0), loose otherwise."""
+        for a in assigned:
+            ev = entry.env.get(a, UNK)
+            if isinstance(ev, Lin) and not isinstance(a, str) or (isinstance(a, str) and not a.startswith('this.') and isinstance(ev, Lin)):
+                if body >= 0 and self._shrinking(f, body, a) and self.is_int_lin(ev, st):
+                    if st.sys.entails_le(Lin.const(0), ev):
+                        v = self.fresh('it', st, True, loose=False)
+                        st.sys.add_le(Lin.const(0), v)
+                        st.sys.add_le(v, ev)
+                        st.env[a] = v
+                        continue
+                    if st.sys.entails_le(ev, Lin.const(0)):
+                        v = self.fresh('it', st, True, loose=False)
+                        st.sys.add_le(v, Lin.const(0))
+                        st.sys.add_le(ev, v)
+                        st.env[a] = v
+                        continue
+                st.env[a] = self.fresh('hv', st, self.is_int_lin(ev, st), loose=True)
+            else:
+                st.env[a] = UNK
 
     def loop(self, f, nid, n, states):
         """a counted loop is entered once with its counter as a symbol in range; anything else: body once with the
@@ -670,8 +887,7 @@ class Analyzer:
                                         s2.sys.add_lt(v, hi)
                                     else:
                                         s2.sys.add_le(v, hi)
-                                    for a in assigned - {d['d']}:
-                                        s2.env[a] = UNK if a not in s2.env else s2.env[a]
+                                    self.havoc_loop_vars(f, body, assigned - {d['d']}, s1, s2)
                                     s2.env[d['d']] = v
                                     if s2.sys.feasible():
                                         self.ex(f, body, [s2])        # obligations inside the body
@@ -684,19 +900,18 @@ class Analyzer:
                                 v = self.fresh('i', s2, True, loose=False)
                                 s2.sys.add_le(Lin.const(0), v)
                                 s2.sys.add_lt(v, lo)
+                                self.havoc_loop_vars(f, body, assigned - {d['d']}, s0, s2)
                                 s2.env[d['d']] = v
                                 if s2.sys.feasible():
                                     self.ex(f, body, [s2])
                                 handled = True
             if not handled and body >= 0:
                 s2 = st.copy()
-                for a in assigned:
-                    s2.env[a] = UNK
+                self.havoc_loop_vars(f, body, assigned, st, s2)
                 self.ex(f, body, [s2])
-            # after the loop: everything assigned in it is unknown
+            # after the loop: everything assigned in it is unknown (up to the shrink invariant)
             s3 = st.copy()
-            for a in assigned:
-                s3.env[a] = UNK
+            self.havoc_loop_vars(f, body, assigned, st, s3)
             out.append(s3)
         return out
 
